@@ -3,6 +3,7 @@
 package main
 
 import (
+	"bytes"
 	"encoding/binary"
 	"encoding/hex"
 	"fmt"
@@ -179,6 +180,27 @@ func loadCorpus(rng *vh.Rng) (*corpus, error) {
 			c.add("addr", b)
 		}
 	}
+	// per-era and query test vectors (protocol parameter updates, certificates, transactions with rationals ...)
+	for _, d := range []string{"ledger/byron", "ledger/shelley", "ledger/allegra", "ledger/mary", "ledger/alonzo", "ledger/babbage", "ledger/conway",
+		"ledger/dijkstra", "ledger/common/script", "protocol/localstatequery", "protocol/localtxsubmission"} {
+		for _, b := range harvest(filepath.Join(repo, d), 120) {
+			if len(b) < 8192 {
+				c.add("cbor", b)
+			}
+		}
+	}
+	// transactions used by the ledger package tests (several carry rationals / pool registrations)
+	for _, b := range harvest(filepath.Join(repo, "ledger"), 150) {
+		if len(b) > 60 && len(b) < 8192 && b[0] >= 0x82 && b[0] <= 0x84 {
+			c.add("tx:*", b)
+			for _, era := range txEraNames {
+				c.groups["tx:"+era] = append(c.groups["tx:"+era], b)
+			}
+		}
+	}
+	for _, b := range tagSeeds() {
+		c.add("tags", b)
+	}
 	for _, b := range harvest(filepath.Join(repo, "cbor"), 300) {
 		c.add("cbor", b)
 	}
@@ -211,6 +233,27 @@ func loadCorpus(rng *vh.Rng) (*corpus, error) {
 			if len(b) < 4096 {
 				c.groups["cbor"] = append(c.groups["cbor"], b)
 			}
+		}
+	}
+	// every seed that contains a tag the repository gives a meaning to
+	seen := map[string]bool{}
+	for _, g := range vh.SortedKeys(c.groups) {
+		if g == "withtags" || strings.HasPrefix(g, "block:") {
+			continue
+		}
+		for _, b := range c.groups[g] {
+			if len(b) > 8192 || seen[string(b)] {
+				continue
+			}
+			seen[string(b)] = true
+			if t, _ := tagSpans(b); len(t) > 0 {
+				c.groups["withtags"] = append(c.groups["withtags"], b)
+			}
+		}
+	}
+	for _, b := range c.groups["withtags"] {
+		if bytes.Contains(b, []byte{0xd8, 0x1e, 0x82}) {
+			c.groups["tags"] = append(c.groups["tags"], b)
 		}
 	}
 	for _, k := range vh.SortedKeys(c.groups) {
